@@ -1150,3 +1150,21 @@ Proof.
   pose proof (parse_sdm_noexc j) as H. unfold parse_tv.
   destruct (parse_sdm j) as [[]| | |]; cbn [bind] in *; try contradiction; split; discriminate.
 Qed.
+
+(* ------------------------------------------------------------------ link to the byte theorems *)
+(* the number JSON shows for an element is the type's own integer: two's complement for signed types *)
+Lemma reader_ext128 st x : st <> Bit -> reader st (ext128 st x) = sval st x.
+Proof.
+  intros Hst. rewrite reader_nonbit by auto. pose proof (width_pos st).
+  assert (width st <= 128) by (destruct st; cbn [width]; lia).
+  destruct (signed st) eqn:Hs; [apply cast_i_exact|apply cast_u_exact]; auto; lia.
+Qed.
+
+Theorem json_prints_value st xs : st <> Bit -> Forall rust_int xs ->
+  exists b, vec_to_bytes st xs = Ok b /\
+            rmap (map (reader st)) (vec_u128_from_bytes st b) = Ok (map (sval st) xs).
+Proof.
+  intros Hst Hxs. destruct (enc_dec_u128 st xs Hst Hxs) as (b & Hb & _ & _ & Hr).
+  exists b. split; [exact Hb|]. rewrite Hr. cbn [rmap]. f_equal. rewrite map_map.
+  apply map_ext. intros x. apply reader_ext128, Hst.
+Qed.
